@@ -1,8 +1,8 @@
 SPECIFICATION Spec
 CONSTANTS
-  Slice = "relay"
-  Big = FALSE
-  MaxEdits = 0
+  Slice = "forge"
+  Big = TRUE
+  MaxEdits = 3
 INVARIANT Inv_ScanIsFirstApplicable
 INVARIANT Inv_UnprotectedGranted
 INVARIANT Inv_NoGrantNoProtectedAccess
